@@ -121,6 +121,12 @@ def vec_push(m, st, ctx, args, span):
     return UNIT
 
 
+@model("std::vec::Vec::<T, A>::reserve", "std::vec::Vec::<T, A>::reserve_exact", "std::vec::Vec::<T, A>::shrink_to_fit",
+       "std::vec::Vec::<T, A>::shrink_to")
+def vec_reserve(m, st, ctx, args, span):
+    return UNIT          # capacity only: contents and length are unchanged
+
+
 @model("std::vec::Vec::<T, A>::extend_from_slice")
 def vec_extend(m, st, ctx, args, span):
     r, s = args
